@@ -245,6 +245,112 @@ def single_key_lemmas(a):
             a.candidates.append(c)
 
 
+# --------------------------------------------------------------------------------------------------
+# process-wide mutable state (C05: reruns / order of inputs; C12: nothing carried from one document to the next)
+# --------------------------------------------------------------------------------------------------
+MUTABLE_TY = re.compile(r"\b(RefCell|Cell|UnsafeCell|Mutex|RwLock|Atomic\w+|LazyStorage|LocalKey|OnceCell)\b")
+WRITE_ONCE = re.compile(r"^(?:lazy_static::lazy::Lazy|OnceLock|std::sync::OnceLock|once_cell::sync::Lazy|std::sync::LazyLock|LazyLock)<(.*)>$")
+
+
+def state_sites(mir):
+    """every `static` / thread-local item of the crate, from the MIR dump: (name, type, kind)"""
+    out = []
+    for m in re.finditer(r"^(static mut|static|const) (.+) = \{$", mir, re.M):
+        kw, rest = m.group(1), m.group(2)
+        # `name: type`; the name may contain `<impl at file:1:2: 3:4>` - the type starts after the last ": " not followed by a digit
+        cut = max((i for i in (x.start() for x in re.finditer(r": ", rest)) if not rest[i + 2:i + 3].isdigit()), default=-1)
+        if cut < 0:
+            continue
+        name, ty = rest[:cut].strip(), rest[cut + 2:].strip()
+        if kw == "const" and "LocalKey<" not in ty:
+            continue
+        out.append((name, ty, kw))
+    return out
+
+
+def classify_state(name, ty, kw):
+    """None if the item cannot carry anything from one evaluation to the next, else the reason it can"""
+    if kw == "static mut":
+        return "static mut"
+    if kw == "const":
+        return "thread-local storage (lives as long as the thread: survives from one document to the next)"
+    if "__RUST_STD_INTERNAL_VAL" in name or "LazyStorage<" in ty:
+        return "thread-local storage"
+    w = WRITE_ONCE.match(ty)
+    inner = w.group(1) if w else ty
+    if ty == name.split("::")[-1] or ty == name:
+        return None                        # lazy_static's unit wrapper type (its value lives in the Lazy<..> static listed separately)
+    if MUTABLE_TY.search(inner):
+        return "interior mutability in a static: " + inner[:80]
+    return None                            # immutable after (write-once) initialisation
+
+
+def process_state_sites(a):
+    """C12 `no variable, rule status or captured key leaks from one data file to another` / C05: the evaluator's mutable state
+    must live in the scopes created per (rules file, document). Enumerated from the MIR of the current tree: every static and
+    thread-local item; allowed are items that are immutable after a write-once initialisation (lazy_static / OnceLock of a type
+    without interior mutability). The solver part is degenerate (a finite table); it is stated as an obligation so that the
+    evidence lists the sites found."""
+    sites = state_sites(a.mir)
+    flagged = [(n, t, classify_state(n, t, k)) for n, t, k in sites if classify_state(n, t, k)]
+    a.fns.append("every static / thread_local item of the crate (enumerated from MIR)")
+    names = "; ".join(f"{n.split('::')[-1]}: {why}" for n, _t, why in flagged[:4])
+    st = a.ob.check("state/no-process-wide-mutable-state", [], [], "true" if flagged else "false",
+                    f"process-wide state ({len(sites)} static / thread-local items enumerated): none of them can be written after its one-time "
+                    "initialisation (no static mut, no thread_local, no interior mutability inside a static), so nothing outlives the scope of one "
+                    "(rules file, document) evaluation" + (f" - FOUND: {names}" if flagged else ""))
+    item = a.ob.items[-1]
+    item["paths"], item["cut_by_unroll_bound"], item["unroll"] = len(sites), 0, 0
+    if st == "refuted":
+        item["replay"] = replay_isolation_battery(a)
+        item["reproduced"] = item["replay"].get("reproduced", False)
+        a.candidates.append(item)
+
+
+def replay_isolation_battery(a):
+    """two documents with the same shape and values of the same length at the same paths, one compliant and one not, and rules using
+    every kind of derived value (built-in functions on data, variables, named rules, filters): each document's structured report
+    when validated alone must equal its report in a joint run, in both orders, and the exit code is 19 iff one of them FAILs"""
+    import itertools
+    exe = a.cli()
+    if not exe:
+        return {"reproduced": False, "note": "native build failed"}
+    rules = ("let names = Resources.*.Name\nlet up = to_upper(%names)\nlet pol = json_parse(Resources.*.Policy)\nlet jn = join(Resources.*.Tags[*], \",\")\n"
+             "let cnt = count(Resources.*.Tags[*])\nlet rr = regex_replace(Resources.*.Arn, \"^arn:(\\w+)$\", \"${1}\")\nlet num = parse_int(Resources.*.Port)\n"
+             "let low = to_lower(%names)\nlet sub = substring(%names, 0, 2)\nlet dec = url_decode(Resources.*.Url)\n"
+             "rule upper { %up == \"GOOD\" }\nrule policy { %pol.Action == \"s3:GetObject\" }\nrule joined { %jn == \"a,b\" }\nrule counted { %cnt == 2 }\n"
+             "rule replaced { %rr == \"aws\" }\nrule number { %num == 80 }\nrule lower { %low == \"good\" }\nrule subs { %sub == \"go\" }\n"
+             "rule decoded { %dec == \"a b\" }\nrule dep when upper {\n  policy\n}\nrule filt { Resources.*[ Name == \"good\" ].Port == \"80\" }\n")
+    good = ('{"Resources": {"r": {"Name": "good", "Policy": "{\\"Action\\": \\"s3:GetObject\\"}", "Tags": ["a", "b"], "Arn": "arn:aws", "Port": "80",\n'
+            ' "Url": "a%20b"}}}\n')
+    bad = ('{"Resources": {"r": {"Name": "evil", "Policy": "{\\"Action\\": \\"s3:PutObject\\"}", "Tags": ["a", "c"], "Arn": "arn:gcp", "Port": "81",\n'
+           ' "Url": "a%20c"}}}\n')
+    docs = {"good": good, "bad": bad}
+
+    def norm(rep):
+        return (rep.get("status"), tuple(sorted(rep.get("compliant", []))), tuple(sorted(rep.get("not_applicable", []))),
+                tuple(sorted(x["Rule"]["name"] for x in rep.get("not_compliant", []) if "Rule" in x)))
+    alone, out = {}, []
+    for k, t in docs.items():
+        rc, rep, err = a.run_structured(exe, rules, [t])
+        if not (rep and isinstance(rep, list) and len(rep) == 1):
+            return {"reproduced": False, "note": "singleton run gave no report", "exit": rc, "stderr": (err or "")[-300:]}
+        alone[k] = (norm(rep[0]), rc)
+    if alone["good"][0][0] != "PASS" or alone["bad"][0][0] != "FAIL":
+        out.append({"problem": "the recipe's own documents are not PASS / FAIL alone", "alone": {k: str(v) for k, v in alone.items()}})
+    for order in (("good", "bad"), ("bad", "good"), ("good", "good", "bad"), ("bad", "bad", "good"), ("good", "bad", "good")):
+        rc, rep, err = a.run_structured(exe, rules, [docs[k] for k in order])
+        if not (rep and isinstance(rep, list) and len(rep) == len(order)):
+            out.append({"order": order, "problem": "missing reports", "exit": rc})
+            continue
+        if rc != 19:
+            out.append({"order": order, "problem": f"exit code {rc}, one document FAILs"})
+        for i, k in enumerate(order):
+            if norm(rep[i]) != alone[k][0]:
+                out.append({"order": order, "position": i, "document": k, "alone": str(alone[k][0]), "in_run": str(norm(rep[i]))})
+    return {"reproduced": bool(out), "mismatches": out[:4], "rules_file": rules, "documents": docs}
+
+
 def order_independence(a):
     it_sites, ser_sites = enumerate_sites(a.mir)
     a.fns.append("every function of the crate that iterates a std HashMap / HashSet (enumerated from MIR)")
@@ -464,4 +570,4 @@ def replay_determinism(a, runs=8):
         shutil.rmtree(d, ignore_errors=True)
 
 
-SITES = {"C05": [order_independence, single_key_lemmas]}
+SITES = {"C05": [order_independence, single_key_lemmas, process_state_sites], "C12": [process_state_sites]}
